@@ -398,8 +398,11 @@ def _set_tree(wt, spec):
         wt.add(ps, ids=ids)
 
 
-def _commit(wt, spec, msg):
+def _commit(wt, spec, msg, merged=None):
     _set_tree(wt, spec)
+    if merged is not None:
+        # (adding after set_parent_ids([a, b]) loses entries in the dirstate: add first, then record the merge)
+        wt.set_parent_ids([wt.last_revision(), merged])
     rev = wt.commit(msg)
     got = _read(wt.branch.repository.revision_tree(rev))
     if got != tlist(tdict(spec)):
@@ -446,6 +449,8 @@ def _text_table(inp, wt, other_tree, mtype):
             continue
         bt = db[f][4] if f in db and db[f][3] == "f" else b""
         tt, ot = dt[f][4], do[f][4]
+        if tt == ot:
+            continue                      # equal texts never reach the text merger
         if mtype == "merge3":
             from merge3 import Merge3
             import patiencediff
@@ -474,6 +479,7 @@ def _key(inp):
 
 def impl(inp):
     from breezy import merge as _merge
+    from breezy.transform import NoFinalPath as _NoFinalPath, MalformedTransform as _Malformed
     if inp["fmt"] != "2a":
         return _impl_git(inp)
     wt = _state.get("wt")
@@ -488,10 +494,9 @@ def impl(inp):
         r1 = _commit(wt, inp["lcas"][0], "lca1")
         _goto(wt, rb)
         r2 = _commit(wt, inp["lcas"][1], "lca2")
-        _goto(wt, r2, [r2, r1])
-        ro = _commit(wt, inp["other"], "other")
-        _goto(wt, r1, [r1, r2])
-        rt = _commit(wt, inp["this"], "this")
+        ro = _commit(wt, inp["other"], "other", merged=r1)
+        _goto(wt, r1)
+        rt = _commit(wt, inp["this"], "this", merged=r2)
     else:
         ro = _commit(wt, inp["other"], "other")
         _goto(wt, rb)
@@ -523,12 +528,27 @@ def impl(inp):
     except AssertionError:
         _state["uses"] = 99
         return Err("AssertionError")
+    except _Malformed:
+        # candidate finding C17-nondir-parent-crash (notes/C17.md): resolve_conflicts gives up
+        _state["uses"] = 99
+        return Err("MalformedTransform")
+    except _NoFinalPath:
+        # candidate finding (notes/C17.md): an entry renamed by OTHER into a directory that THIS no longer has
+        _state["uses"] = 99
+        return Err("NoFinalPath")
     wt2 = wt.controldir.open_workingtree()
     stored = sorted((c.typestring, c.file_id) for c in wt2.conflicts())
     cs = sorted((c.typestring, c.file_id) for c in cooked)
     if stored != cs:
         raise RuntimeError(f"stored conflicts {stored!r} differ from cooked {cs!r}")
-    return [_read(wt2), [[fidn(fid) if fid is not None else -1, Tag(ts)] for ts, fid in cs]]
+    return [_obs_tree(_read(wt2)), [[fidn(fid) if fid is not None else -1, Tag(ts)] for ts, fid in cs]]
+
+
+KIND = {"f": "file", "d": "directory", "l": "symlink"}
+
+
+def _obs_tree(t):
+    return [[e[0], e[1], e[2], Tag(KIND[e[3]]), bytes(e[4]), bool(e[5])] for e in tlist(tdict(t))]
 
 
 def _impl_git(inp):
@@ -591,8 +611,8 @@ def oracle(inp, obs):
         return f"{law}: merge failed with {obs}"
     if obs[1]:
         return f"{law} without conflicts; got conflicts {obs[1]!r}"
-    if obs[0] != want:
-        return f"{law}; got {obs[0]!r}, wanted {want!r}"
+    if obs[0] != _obs_tree(want):
+        return f"{law}; got {obs[0]!r}, wanted {_obs_tree(want)!r}"
     return None
 
 
